@@ -500,12 +500,9 @@ example : (runOps (fileStream 4) ⟨IStream.init [1,2,3,4,5,6], OStream.init fal
     (runOps (fileStream 4) ⟨IStream.init [1,2,3,4,5,6], OStream.init false, 0⟩ [.skip 7] ⟨[.part 0, .eintr], []⟩).1 = [.skip .oob] := by
   decide
 
--- the drain reports what it meets: 1024 zero bytes (the end-of-archive marker) and one more byte through a codec that
--- passes at most 512 bytes per call and rejects input that starts with 0xFF, file fed 600 bytes at a time with an EINTR:
+-- the drain reports what it meets: 1024 zero bytes (the end-of-archive marker) and one more byte through `chunkCodec`
+-- (passes at most 512 bytes per call, rejects input that starts with 0xFF), file fed 600 bytes at a time with an EINTR:
 -- a clean rest gives "end of archive" (1), a damaged rest the decompressor's error; without the flag the damage goes unseen
-def chunkCodec : Codec Unit :=
-  ⟨fun _ inp cap _ => if inp.head? = some 255 then ((), 0, [], .error)
-    else ((), min (min inp.length cap) 512, inp.take (min (min inp.length cap) 512), .ok)⟩
 set_option maxRecDepth 20000 in
 example : (tarNext (xfrmStream (fileStream 2048) chunkCodec 1024 50)
       { TarIt.init (⟨IStream.init (List.replicate 1024 0 ++ [255]), (), 0, []⟩ : XStream IStream Unit) with compressed := true }
